@@ -116,6 +116,7 @@ Section V.
   (* Python builtins max(a,b) / min(a,b) *)
   Definition pymax (a b : T) : T := if lt a b then b else a.
   Definition pymin (a b : T) : T := if lt b a then b else a.
+  Definition isfin (x : T) : bool := negb (isnan x) && lt (fabs x) finf.   (* np.isfinite *)
   Definition vclip (l u x : vec) : vec := vmap2 npmin (vmap2 npmax l x) u.   (* np.minimum(np.maximum(l, x), u) *)
   Definition vany (f : T -> bool) (x : vec) : bool := existsb f x.
   (* numpy.argmin: index of the first NaN if any, else of the first minimum *)
